@@ -51,6 +51,9 @@ def run(chk):
         census(chk, facts, cfg)
         from .sites import run_sites
         run_sites(chk, facts, "C02-d", cfg)
+        if cfg == "union":
+            from .sites import run_engine_fixture
+            run_engine_fixture(chk)
         from .iterprog import run_iterprog
         run_iterprog(chk, facts, "C02-h", ("skrifa", "incremental_font_transfer", "shared_brotli_patch_decoder"), 1)
     from . import trec
